@@ -105,6 +105,9 @@ func NewKeeper(
 	return k
 }
 
+// ErrNoEVMValidators is returned when no validator with voting power has registered an EVM address (yet)
+var ErrNoEVMValidators = errors.New("no validators found")
+
 func (k Keeper) Logger(ctx context.Context) log.Logger {
 	sdkCtx := sdk.UnwrapSDKContext(ctx)
 	return sdkCtx.Logger().With("module", fmt.Sprintf("x/%s", types.ModuleName))
@@ -134,7 +137,7 @@ func (k Keeper) GetCurrentValidatorsEVMCompatible(ctx context.Context) ([]*types
 	}
 
 	if len(bridgeValset) == 0 {
-		return nil, errors.New("no validators found")
+		return nil, ErrNoEVMValidators
 	}
 
 	// Sort the validators
